@@ -1,0 +1,26 @@
+package utils
+
+import "io"
+
+// FullReader returns a reader whose Read fills the whole buffer it is given
+// unless the stream ends first, whatever the size of the pieces in which the
+// underlying reader delivers its data (an io.Reader is allowed to return fewer
+// bytes than asked for: pipes, sockets and decompressors do). It is meant for
+// decoders which issue a single Read for a fixed-size value. It does not read
+// ahead.
+func FullReader(r io.Reader) io.Reader {
+	return fullReader{r}
+}
+
+type fullReader struct {
+	r io.Reader
+}
+
+func (f fullReader) Read(p []byte) (int, error) {
+	n, err := io.ReadFull(f.r, p)
+	if err == io.ErrUnexpectedEOF && n > 0 {
+		// as io.Reader prescribes: the bytes read so far, the error on the next call
+		return n, nil
+	}
+	return n, err
+}
